@@ -100,6 +100,7 @@ typedef struct {
     m_evt_ps_t msg;
     m_ps_flags flags;
     ev_src_t *sub;
+    void *autofree;                         // Ref-counted holder of a M_PS_AUTOFREE payload, shared by all the copies of a message
 } ps_priv_t;
 
 extern const char *src_names[];
